@@ -426,7 +426,8 @@ class Check:
         if not samples:
             samples = [{"query": q} for q in queries[:3]]
         # replays dir
-        rep_dir = os.path.join(VERIF, "evidence", "replays")
+        evid_dir = os.environ.get("VERIF_EVIDENCE_DIR", os.path.join(VERIF, "evidence"))   # override only used by tools/seed_sweep.sh
+        rep_dir = os.path.join(evid_dir, "replays")
         os.makedirs(rep_dir, exist_ok=True)
         lines = []
         printed_known = set()
@@ -475,8 +476,8 @@ class Check:
             "wall_s": round(time.time() - self.t0, 2),
             "violations": len(self.violations),
         }
-        os.makedirs(os.path.join(VERIF, "evidence"), exist_ok=True)
-        json.dump(ev, open(os.path.join(VERIF, "evidence", f"{self.pid}.json"), "w"), indent=1, default=str)
+        os.makedirs(evid_dir, exist_ok=True)
+        json.dump(ev, open(os.path.join(evid_dir, f"{self.pid}.json"), "w"), indent=1, default=str)
         for ln in lines:
             print(ln)
         print(f"[{self.pid}] tier={self.tier} queries={len(queries)} unsat={n_unsat} sat={n_sat} unknown={n_unk} "
